@@ -255,6 +255,24 @@ def run(ctx):
         ctx.count('op:valuecounts')
         if not ok:
             ctx.spec_fail('valuecounts|sum', 'valuecounter/valuecounts do not add up to nrows', {'table': repr(T), 'field': f})
+    # groups stay in input order when the sort behind the grouping spills into hundreds of chunks
+    keys = [None, 1, 2, 'a', 2.5]
+    for n, bs in ((400, 3), (300, 1)):
+        rows = [[rng.choice(keys), i] for i in range(n)]
+        T = [['k', 'i']] + rows
+        for name, call in (('aggregate(list)', lambda **kw: etl.aggregate(T, 'k', list, 'i', **kw)),
+                           ('aggregate(multi)', lambda **kw: etl.aggregate(T, 'k', OrderedDict([('n', len), ('is', ('i', list))]), **kw)),
+                           ('rowreduce', lambda **kw: etl.rowreduce(T, 'k', lambda k, g: [k, [r[1] for r in g]], header=['k', 'is'], **kw)),
+                           ('groupselectlast', lambda **kw: etl.groupselectlast(T, 'k', **kw))):
+            try:
+                a, b = list(call()), list(call(buffersize=bs))
+            except Exception as e:   # noqa
+                a, b = 'default', 'ERR ' + type(e).__name__
+            ctx.case((name, 'many-chunks', n, bs))
+            ctx.count('many-chunks')
+            if a != b:
+                ctx.spec_fail('%s|many-chunks' % name, '%s over %d rows with buffersize=%d differs from the default call (groups not in input order)' % (name, n, bs),
+                              {'op': name, 'nrows': n, 'buffersize': bs})
 
 
 def replay(d):
